@@ -168,6 +168,17 @@ func relayout(r *Rand, src string, style int) (string, string) {
 		if r.Chance(1, 4) {
 			s += eol + eol
 		}
+		if r.Chance(1, 3) {
+			// layout-only lines after the last statement: a comment, blanks, a tab, with or without a line end of their own
+			tails := []string{"; end of file", "\t", "    ", "  # done", "", ";", "\t; last"}
+			for k := r.Range(1, 3); k > 0; k-- {
+				s += Pick(r, tails)
+				if k > 1 || r.Bool() {
+					s += eol
+				}
+			}
+			desc = append(desc, "layout-lines-at-end")
+		}
 	} else {
 		desc = append(desc, "no-final-newline")
 	}
@@ -193,6 +204,13 @@ func genC12(r *Rand, nvar int) *VariantCase {
 		strs.Items = append(strs.Items, strItem(Pick(r, c05Strings)), numItem(int64(r.Intn(256)), r.Intn(2)))
 	}
 	p.Stmts = append(p.Stmts[:n-1], strs, PStmt{K: "global", Text: "_g1, _g2"}, p.Stmts[n-1])
+	switch r.Intn(4) {
+	case 0:
+		// the file ends in an instruction without operands (a grammar rule of its own), in a data statement, or in a directive
+		p.Stmts = append(p.Stmts, PStmt{K: "raw", Text: "\t" + Pick(r, []string{"HLT", "RET", "NOP", "CLI", "STI"})})
+	case 1:
+		p.Stmts = append(p.Stmts, PStmt{K: "raw", Text: Pick(r, []string{"\tDB 1,2", "\tRESB 3", "\tGLOBAL _g3", "[FILE \"end.nas\"]", "ENDK\tEQU\t5"})})
+	}
 	src := p.Source()
 	c := &VariantCase{Prop: "C12", Base: []byte(src)}
 	for v := 0; v < nvar; v++ {
@@ -271,7 +289,7 @@ func init() {
 			cases = append(cases, c)
 		}
 		rep.Extra["corpus_programs"] = len(cnames)
-		rep.Rule = "the book programs of /repo/test (copied to corpus/book) under line-level re-layouts, and seeded programs (labels, EQUs, data with strings containing ; # , and quotes, GLOBAL, both modes) rendered canonically and in token-preserving re-layouts: ';' and '#' comments (text with quotes, commas, brackets, Japanese) after any statement or on their own lines, blank lines, indentation of any statement including labels, tabs/spaces, 0-2 blanks around commas, operators, parentheses and inside brackets, trailing whitespace, LF/CRLF/CR, final newline present/absent; " +
+		rep.Rule = "the book programs of /repo/test (copied to corpus/book) under line-level re-layouts, and seeded programs (labels, EQUs, data with strings containing ; # , and quotes, GLOBAL, both modes) rendered canonically and in token-preserving re-layouts: ';' and '#' comments (text with quotes, commas, brackets, Japanese) after any statement or on their own lines, blank lines, indentation of any statement including labels, tabs/spaces, 0-2 blanks around commas, operators, parentheses and inside brackets, trailing whitespace, LF/CRLF/CR, final newline present/absent, layout-only lines after the last statement, files ending in every kind of statement; " +
 			"only gaps where NASK lexically allows whitespace are varied; a part of the programs also goes through the real command (cmd/gosk) in layouts that only its file reading could treat differently: physical lines of 65535, 65536 and 70000 bytes (comment, trailing blanks, gap after the mnemonic), 9000 extra lines with LF and CRLF ends, 10^5 blank lines, no final newline; the command must leave the bytes and exit status of the canonical layout; oracle: every re-layout assembles to the bytes of the canonical layout; distinct = (mode, origin, size bucket) cells; each case carries several layouts"
 		// the same property through the real command: layouts that only the file-reading side could treat differently
 		ncli := 0
